@@ -1,5 +1,5 @@
 """Shared by C04 / C10 / C01: where does the index that `handle_srt_packet` routes on come from?"""
-from ..ctx import CONN, is_call, is_field, sname
+from ..ctx import CONN, is_call, is_field, is_iter_next, sname
 from ..expr import show, walk
 from ..linkpred import LINK, NOW, LinkSpace, find_link_and_now, mapping_for
 from ..pathcond import calls_to
@@ -115,6 +115,6 @@ def producer_admission(ctx, sp, producer_stable, rule):
 
 def _is_iter_atom(a):
     for x in walk(a):
-        if x and x[0] == "call" and "Iterator>::next" in x[1]:
+        if is_iter_next(x):
             return True
     return False
